@@ -36,7 +36,11 @@ def run_property(prop, tier="quick", repo="/repo", evidence_dir=None, quiet=Fals
         rep.prog = prog
         if prog.normalised or prog.inlined:
             rep.extra["normalisations"] = list(prog.normalised) + [f"inlined {h} into {c}" for c, h in prog.inlined]
-        mod.check(prog, rep)
+        try:
+            mod.check(prog, rep)
+        except AnalysisError as e:
+            # the rules shared by all properties below still run: a violation they find is reported next to the error
+            rep.error(f"{e}")
         # shared by all properties: the logging statements of the property's anchor files evaluate nothing that can fail
         from .rules_raise import log_total
 
@@ -47,6 +51,12 @@ def run_property(prop, tier="quick", repo="/repo", evidence_dir=None, quiet=Fals
         from .rules_raise import free_state
 
         free_state(prog, rep, anchor_files(prop))
+        from .rules_raise import negative_slices
+
+        negative_slices(prog, rep, anchor_files(prop))
+        from .rules_raise import optional_attrs
+
+        optional_attrs(prog, rep, anchor_files(prop))
         # the Event class is underneath every property that stores, copies, compares or does arithmetic on events: its setters
         # normalise (NORMALISE, DURATION), deepcopy is the default protocol (COPY-PROTOCOL), its order is by timestamp (ORDER-KEY)
         if prop not in ("C20",):
